@@ -135,7 +135,7 @@ def _sharded(jobs, harness, base, var="a", weight=1, spec=None):
     for name, extra in shard_extras(var, exclude=(spec or {}).get(var, {}).get("exclude", "")):
         p = dict(base)
         sp = {k: dict(v) for k, v in (spec or {}).items()}
-        sp[var] = dict(sp.get(var, {}), extra=extra)
+        sp[var] = dict(sp.get(var, {}), extra=(f"({sp[var]['extra']}) and ({extra})" if sp.get(var, {}).get("extra") else extra))
         p["spec"] = sp
         p["shard"] = name
         jobs.append({"harness": harness, "params": p, "weight": weight, "cpu_cap": 900, "wall_cap": 1500})
@@ -155,10 +155,15 @@ def jobs(tier, seed):
                 scaffold = [("x" if p == H("b") else p) for p in sc] if name in KEEP_SECOND else [p for p in sc if p != H("b")]
             base = {"cfg": cfg, "scaffold": scaffold, "inline": inline, "sym_opts": opts, "name": name,
                     "lp_len": 1 if tier == "quick" else 2}
+            slot_spec = spec_nocr
+            if name in URL_SLOTS:
+                from ..mdutil import urlish
+
+                slot_spec = dict(spec_nocr, a=dict(NOCR, extra=urlish("a")), b=dict(NOCR, extra=urlish("b")))
             if tier == "thorough":
-                _sharded(jobs, "render", base, weight=8, spec=spec_nocr)
+                _sharded(jobs, "render", base, weight=8, spec=slot_spec)
             else:
-                base["spec"] = spec_nocr
+                base["spec"] = slot_spec
                 jobs.append({"harness": "render", "params": base, "weight": 5, "cpu_cap": 900, "wall_cap": 1500})
     kp = 2 if tier == "quick" else 3
     for cfg in (JS, ZERO) if tier == "quick" else (JS, ZERO, CMH):
@@ -167,6 +172,7 @@ def jobs(tier, seed):
     return jobs
 
 
+URL_SLOTS = ("link-href", "link-href-angle", "image-src", "autolink", "autolink-mail", "ref-image")
 QUICK_TWO_FREE = ("code-block",)
 KEEP_SECOND = ("table-align", "table-cell", "breaks", "ref-image", "fence-info-sp", "ol-start")
 # slots whose second free character costs > 300 CPU-s (URL normalisation, entity table): one free character in quick
